@@ -65,6 +65,15 @@ theorem pyIntHex_two (a b : Nat) (ha : a < 16) (hb : b < 16) :
   · simp [digitsVal, hexDigitVal_digitChar a ha, hexDigitVal_digitChar b hb]
     omega
 
+theorem pyIntHex_three (a b c : Nat) (ha : a < 16) (hb : b < 16) (hc : c < 16) :
+    pyIntHex [digitChar a, digitChar b, digitChar c] = .ok ((256 * a + 16 * b + c : Nat) : Int) := by
+  obtain ⟨h1, h2, _⟩ := digitChar_ne_punct a
+  refine pyIntSigned_unsigned 16 hexDigitVal _ _ ?_ ?_ (by simp) (by simp) ?_
+  · intro r heq; simp only [List.cons.injEq] at heq; exact h1 heq.1
+  · intro r heq; simp only [List.cons.injEq] at heq; exact h2 heq.1
+  · simp [digitsVal, hexDigitVal_digitChar a ha, hexDigitVal_digitChar b hb, hexDigitVal_digitChar c hc]
+    omega
+
 theorem pyIntDec_toBase (n : Nat) (hn : DecimalOk n) : pyIntDec (toBase 10 n) = .ok (n : Int) := by
   have hne := toBase_ne_nil 10 n (by omega)
   have hasc := toBase10_ascii n
@@ -97,16 +106,28 @@ theorem getElem?_of_drop_nil (body : Str) (i : Nat) (hd : body.drop i = []) : bo
 theorem nums_tok (body : Str) (k i : Nat) (acc : List Int) (v : Int) (rest : Str) (hv : NumOk v)
     (hd : body.drop i = tok v ++ rest) :
     compassNums body (k + 1) i acc = compassNums body k (i + (tok v).length) (acc ++ [v]) := by
-  rcases tok_cases v hv with ⟨e1, e⟩ | ⟨h0, _, hlt, e⟩ | ⟨h16, _, ha, hb, hab, e⟩
+  rcases tok_cases v hv with ⟨e1, e⟩ | ⟨h0, _, hlt, e⟩ | ⟨h16, _, ha, hb, hab, e⟩ | ⟨h256, _, ha, hb, hc, habc, e⟩
+  rotate_right
+  · rw [e] at hd ⊢
+    have hg := getElem?_of_drop body _ i _ hd
+    have hs : slice body (i + 1) 3
+        = [digitChar (v.toNat / 16 / 16), digitChar (v.toNat / 16 % 16), digitChar (v.toNat % 16)] := by
+      unfold slice
+      rw [← List.drop_drop, hd]
+      simp
+    rw [compassNums, hg]
+    simp only [if_neg (show ¬ (43 : Nat) = 45 by decide), if_true, hs, pyIntHex_three _ _ _ ha hb hc,
+      Outcome.bind_ok, habc, List.length_cons, List.length_nil]
+    rw [Int.toNat_of_nonneg (by omega)]
   · rw [e] at hd ⊢
     have hg := getElem?_of_drop body _ i 46 hd
     rw [compassNums, hg, e1]
     simp
   · rw [e] at hd ⊢
     have hg := getElem?_of_drop body _ i _ hd
-    obtain ⟨n1, _, n3⟩ := digitChar_ne_punct v.toNat
+    obtain ⟨n1, n2, n3⟩ := digitChar_ne_punct v.toNat
     rw [compassNums, hg]
-    simp only [if_neg n1, if_neg n3, pyIntHex_one _ hlt, Outcome.bind_ok, List.length_singleton]
+    simp only [if_neg n1, if_neg n2, if_neg n3, pyIntHex_one _ hlt, Outcome.bind_ok, List.length_singleton]
     rw [Int.toNat_of_nonneg h0]
   · rw [e] at hd ⊢
     have hg := getElem?_of_drop body _ i _ hd
